@@ -77,6 +77,7 @@ LOSS_FNS = {
     "dist": lambda th: float(np.sum((th - 0.3) ** 2)),
     "extreme": lambda th: (1e40 if th[0] > np.mean(th) + 0.2 else -1e40 if th[0] < np.mean(th) - 0.4 else float(np.sum(th))),
     "ties": lambda th: float(round(float(np.sum(th)), 0)),
+    "infmix": lambda th: (float("inf") if th[0] > 0.7 else -float("inf") if th[0] < 0.08 else float(np.sum(th))),
 }
 
 
